@@ -71,7 +71,7 @@ def case_stream(rng, tier):
     """(block, style_rng_or_None) for the correspondence; the search re-uses them."""
     for b in corpus_cases():
         yield b, None
-    n = 1500 if tier == "quick" else 40000
+    n = 5000 if tier == "quick" else 40000
     mixes = [("if",), ("if",), ("if", "wh"), ("if", "wh", "for"), ("wh",), ("for", "if")]
     for i in range(n):
         kinds = mixes[i % len(mixes)]
@@ -80,7 +80,7 @@ def case_stream(rng, tier):
         else:
             yield tc.gen_case(rng, kinds=kinds, max_size=9 if rng.random() < 0.9 else 16), rng
     if tier == "quick":
-        for b in tc.enum_programs(3, 2, ["if"]):
+        for b in tc.enum_programs(4, 2, ["if"]):
             yield b, None
         for b in tc.enum_programs(3, 1, ["wh", "for"]):
             yield b, None
@@ -93,53 +93,85 @@ def case_stream(rng, tier):
             yield b, None
 
 
+class OracleSink:
+    """Runs the property oracle on cases as they stream by; keeps the first case per signature."""
+
+    def __init__(self):
+        self.evaluations = 0
+        self.nontrivial = set()
+        self.first = {}
+
+    def consider(self, b, code, nb, real):
+        self.evaluations += 1
+        if nontrivial(b):
+            self.nontrivial.add(hash(code))
+        for sig, what in tc.oracle(nb, real):
+            key = json.dumps(sig, sort_keys=True)
+            if key not in self.first:
+                self.first[key] = (sig, what, b)
+
+
 def correspond(rng, tier, driver):
     res = CorrResult()
     res.rule = ("cases = corpus (incl. the two open-finding witnesses) + seeded random flow programs (<=16 statements, "
                 "<=5 variables, nesting <=4, if/elif/else, while, for; expression and else-if spelling randomised) + "
                 "'assigned inside a compound statement, read afterwards' patterns + EVERY program up to a bound "
-                "(quick: <=3 statements; thorough: if-subset <=5 statements / 2 variables / depth 2, with loops <=4); "
+                "(quick: if-subset <=4 statements, with loops <=3; thorough: if-subset <=5 statements / 2 variables / depth 2, with loops <=4); "
                 "real = tifa_analysis on the rendered source, sorted (label, name, line) of the three initialisation "
                 "labels and (label, name) of unused_variable; model = Pedal.TifaFlow.analyse through the driver; "
                 "for if-only programs the Lean path semantics specRun is also compared with the Python path oracle; "
                 "non-trivial = a compound statement containing an assignment, followed by more statements")
-    cases, lines, spec_lines, spec_idx = [], [], [], []
+    sink = OracleSink()
+    res.sink = sink
+    samples = []
+
+    def flush(cases):
+        lines, spec_lines, spec_idx = [], [], []
+        for i, (b, code, nb, real) in enumerate(cases):
+            w = tc.wire(nb)
+            lines.append("tifaflow " + w)
+            if not (tc.has_kind(nb, "wh") or tc.has_kind(nb, "for")) and tc.count_paths(nb) <= tc.PATH_CAP:
+                spec_idx.append(i)
+                spec_lines.append("tifaspec " + w)
+        answers = driver.ask(lines)
+        spec_answers = driver.ask(spec_lines)
+        for (b, code, nb, real), ans, req in zip(cases, answers, lines):
+            model = tc.parse_model(ans)
+            res.evaluations += 1
+            kinds = "+".join(k for k in ("if", "wh", "for") if tc.has_kind(nb, k)) or "straight"
+            res.count("kinds:" + kinds)
+            res.count("size:%02d" % min(tc.size(b), 12))
+            for lab, _, _ in real.get("issues", []):
+                res.count("label:" + lab)
+            if "error" in real:
+                res.count("real-analysis-failed")
+            if nontrivial(b):
+                res.nontrivial.add(hash(code))
+            if real != model and len(res.disagreements) < 50:
+                res.disagreements.append({"case": {"block": b, "code": code}, "real": real, "model": model,
+                                          "request": req})
+            sink.consider(b, code, nb, real)
+        for i, ans in zip(spec_idx, spec_answers):
+            b, code, nb, real = cases[i]
+            lean_spec = tc.parse_spec(ans)
+            py_spec = tc.read_classes_ordered(nb)
+            res.count("spec-crosscheck")
+            if lean_spec != py_spec and len(res.disagreements) < 50:
+                res.disagreements.append({"case": {"block": b, "code": code}, "real": {"python_path_oracle": py_spec},
+                                          "model": {"lean_specRun": lean_spec}, "request": "tifaspec " + tc.wire(nb)})
+
+    batch = []
     for b, srng in case_stream(rng, tier):
         code, nb = tc.render(b, tc.Style(srng))
-        real = tc.run_real(code)
-        w = tc.wire(nb)
-        cases.append((b, code, nb, real))
-        lines.append("tifaflow " + w)
-        if not (tc.has_kind(nb, "wh") or tc.has_kind(nb, "for")):
-            spec_idx.append(len(cases) - 1)
-            spec_lines.append("tifaspec " + w)
-    answers = driver.ask(lines)
-    spec_answers = driver.ask(spec_lines)
-    for (b, code, nb, real), ans in zip(cases, answers):
-        model = tc.parse_model(ans)
-        res.evaluations += 1
-        kinds = "+".join(k for k in ("if", "wh", "for") if tc.has_kind(nb, k)) or "straight"
-        res.count("kinds:" + kinds)
-        res.count("size:%d" % min(tc.size(b), 12))
-        for lab, _, _ in real.get("issues", []):
-            res.count("label:" + lab)
-        if "error" in real:
-            res.count("real-analysis-failed")
-        if nontrivial(b):
-            res.nontrivial.add(code)
-        if real != model:
-            res.disagreements.append({"case": {"block": b, "code": code}, "real": real, "model": model,
-                                      "request": "tifaflow " + tc.wire(nb)})
-    for i, ans in zip(spec_idx, spec_answers):
-        b, code, nb, real = cases[i]
-        lean_spec = tc.parse_spec(ans)
-        py_spec = tc.read_classes_ordered(nb)
-        res.count("spec-crosscheck")
-        if lean_spec != py_spec:
-            res.disagreements.append({"case": {"block": b, "code": code}, "real": {"python_path_oracle": py_spec},
-                                      "model": {"lean_specRun": lean_spec}, "request": "tifaspec " + tc.wire(nb)})
-    res.samples = [c[1] for c in cases[2:5]]
-    res.reals = cases
+        batch.append((b, code, nb, tc.run_real(code)))
+        if len(samples) < 5:
+            samples.append(code)
+        if len(batch) >= 4000:
+            flush(batch)
+            batch = []
+    flush(batch)
+    res.samples = samples[2:5]
+    res.count("oracle-skipped(too many paths)", tc.ORACLE_SKIPPED[0])
     return res
 
 
@@ -149,41 +181,32 @@ def search(rng, tier, broken, corr):
                     "/ Possible Initialization Problem exactly), unused reported when no path reads after the last "
                     "assignment and not reported when every path does; with loops - every read unassigned on some real "
                     "execution (0/1/2 iterations per loop, stopping at the first NameError) carries an issue; over the "
-                    "correspondence cases (corpus, random, patterns, exhaustive small scope)",
+                    "correspondence cases (corpus, random, patterns, exhaustive small scope) plus fresh random ones; "
+                    "programs with more than %d executions are skipped" % tc.PATH_CAP,
             "evaluations": 0, "distinct_nontrivial": 0, "samples": []}
-    failures = {}
-    nt = set()
-
-    def consider(b, code, nb, real):
-        info["evaluations"] += 1
-        if nontrivial(b):
-            nt.add(code)
-        for sig, what in tc.oracle(nb, real):
-            key = json.dumps(sig, sort_keys=True)
-            if key in failures:
-                continue
-
-            def still(bb):
-                c2, nb2 = tc.render(bb)
-                return any(s2 == sig for s2, _ in tc.oracle(nb2, tc.run_real(c2)))
-            small = tc.shrink(b, still) if still(b) else b
-            c2, nb2 = tc.render(small)
-            r2 = tc.run_real(c2)
-            w2 = [w for s2, w in tc.oracle(nb2, r2) if s2 == sig]
-            failures[key] = Failure(sig, (w2[0] if w2 else what) + " | program: " + c2.replace("\n", " / "),
-                                    {"block": small, "code": c2, "real": r2})
-
-    for b, code, nb, real in getattr(corr, "reals", []):
-        consider(b, code, nb, real)
+    sink = getattr(corr, "sink", None) or OracleSink()
     extra = (300 if tier == "quick" else 5000) * (4 if broken else 1)
     for i in range(extra):
         kinds = [("if",), ("if", "wh"), ("wh", "for", "if")][i % 3]
         b = tc.gen_pattern(rng, kinds) if i % 2 else tc.gen_case(rng, kinds=kinds)
         code, nb = tc.render(b, tc.Style(rng))
-        consider(b, code, nb, tc.run_real(code))
-    info["distinct_nontrivial"] = len(nt)
-    info["samples"] = [f.replay["code"] for f in failures.values()][:3]
-    return list(failures.values()), info
+        sink.consider(b, code, nb, tc.run_real(code))
+    failures = []
+    for key, (sig, what, b) in sink.first.items():
+        def still(bb):
+            c2, nb2 = tc.render(bb)
+            return any(s2 == sig for s2, _ in tc.oracle(nb2, tc.run_real(c2)))
+        small = tc.shrink(b, still) if still(b) else b
+        c2, nb2 = tc.render(small)
+        r2 = tc.run_real(c2)
+        w2 = [w for s2, w in tc.oracle(nb2, r2) if s2 == sig]
+        failures.append(Failure(sig, (w2[0] if w2 else what) + " | program: " + c2.rstrip("\n").replace("\n", " / "),
+                                {"block": small, "code": c2, "real": r2}))
+    info["evaluations"] = sink.evaluations
+    info["distinct_nontrivial"] = len(sink.nontrivial)
+    info["oracle_skipped_too_many_paths"] = tc.ORACLE_SKIPPED[0]
+    info["samples"] = [f.replay["code"] for f in failures][:3]
+    return failures, info
 
 
 def replay(payload):
